@@ -1082,6 +1082,13 @@ pub fn gen_deep_stacks(_tier: Tier) -> Gen {
         m.threads[0].ip = APP_BASE + 0x40;
         m.modules.push(app_module());
         m.deep = Some(NS[d[0] as usize]);
+        // the shortest chain returns to the very first byte of a second module that starts where the first ends:
+        // such a frame's instruction (the return address minus one) is the LAST byte of the first module
+        if d[0] == 0 {
+            let first = app_module();
+            m.modules.push(ModM { base: first.base + first.size as u64, size: 0x10000, name: "c:\\dir\\next.dll".into() });
+            m.deep_ra = Some((first.base + first.size as u64, 0));
+        }
         m
     };
     Gen { name: "deep-stacks", len, model: Arc::new(model) }
